@@ -5,6 +5,7 @@ import GenlmModel.Model.Norm
 import GenlmModel.Model.Mask
 import GenlmModel.Model.WfsaOps
 import GenlmModel.Model.Cert
+import GenlmModel.Model.Linear
 /-! Operation dispatch of the driver: one JSON object in, one JSON object out. -/
 namespace Genlm
 open Lean (Json)
@@ -190,6 +191,32 @@ def fun2OfJson (j : Json) : E (Sx → Sx → K) := do
     | _ => throw "bad triple"
   pure fun x y => match l.find? (fun e => e.1 = (x, y)) with | some e => e.2 | none => 0
 
+def triplesOfJson (j : Json) : E (List ((Sx × Sx) × K)) := do
+  (← getArr j).mapM fun e => do
+    match ← getArr e with
+    | [a, b, w] => pure (((← sxOfJson a), (← sxOfJson b)), (← Wt.ofJson w))
+    | _ => throw "bad triple"
+
+def triplesToJson (l : List ((Sx × Sx) × K)) : Json :=
+  .arr (l.map fun e => Json.arr #[sxToJson e.1.1, sxToJson e.1.2, Wt.toJson e.2]).toArray
+
+variable [DecidableEq K] [HasStar K] in
+/-- {"op":"linear","nodes":[…],"edges":[[i,j,w]…],"blocks":[[…]…],"b":[[node,w]…]} →
+verified SCC check of the blocks, and the mirror models of closure_scc_based / closure_reference /
+solve_left / solve_right run on those blocks -/
+def opLinear (j : Json) : E Json := do
+  let nodes ← sxList (← getField j "nodes")
+  let edges ← triplesOfJson (K := K) (← getField j "edges")
+  let blocks ← (← getArr (← getField j "blocks")).mapM sxList
+  let b ← fun1OfJson (K := K) (← getField j "b")
+  let g : WGraph Sx K := ⟨nodes, edges⟩
+  let star : K → K := fun x => match HasStar.star x with | some y => y | none => 0
+  let divergent := blocks.any fun N => (lehmannPivots g star N).any fun a => (HasStar.star a).isNone
+  let bl := mkBlocks g star blocks
+  pure (Json.mkObj [("scc_ok", .bool (sccCheck g g.arcs blocks)), ("divergent", .bool divergent),
+    ("closure_scc", triplesToJson (closureScc g bl)), ("closure_ref", triplesToJson (closureRef g star)),
+    ("solve_left", pairsToJson (solveLeft g bl b)), ("solve_right", pairsToJson (solveRight g bl b))])
+
 def utf8 : Sx → List Sx
   | .s v => v.toUTF8.toList.map fun b => Sx.i b.toNat
   | x => [x]
@@ -250,8 +277,9 @@ def opShape (j : Json) : E Json := do
     ("no_unary_cycle", b (noUnaryCycle G)), ("trim_useful", b (trimUseful G)),
     ("orig_start_generating", b (match og with | some o => decide (o.S ∈ generating o) | none => true))])
 
-def runOpK [DecidableEq K] [HasInv K] (op : String) (j : Json) : E Json :=
+def runOpK [DecidableEq K] [HasInv K] [HasStar K] (op : String) (j : Json) : E Json :=
   match op with
+  | "linear" => opLinear (K := K) j
   | "zn" => opZn (K := K) j
   | "mask" => opMask (K := K) j
   | "pn" => opPn (K := K) j
@@ -263,6 +291,7 @@ def runOpK [DecidableEq K] [HasInv K] (op : String) (j : Json) : E Json :=
 end
 
 instance {K : Type} [HasInv K] [Zero K] : HasInv (Expc K) := ⟨fun _ => none⟩
+instance {K : Type} : HasStar (Expc K) := ⟨fun _ => none⟩
 
 /-- {"op":"lift_expectation","cfg":…,"n":N}: ZN of the Expectation-lifted grammar (model of `expected_length`) -/
 def opLiftExp (j : Json) : E Json := do
